@@ -25,6 +25,7 @@ def run(tier, seed, update_lock=False):
         R.prove(u)
     for u in units:
         R.canary_check(u)
+    R.conformance('C20.py', units, args=['--exclude=' + ','.join(R.excluded())])
     R.bounded('C20.py', 'run-time contracts on the real rotamer / transitions code',
               'sequences len<=3 over a 13-angle grid + seeded len<=12, 3 boundary sets, 13 buffer widths; transitions: all 1-D len<=5 over 3 states, all 2-D 0/1 arrays <=3x3',
               args=['--exclude=' + ','.join(R.excluded())])
